@@ -35,6 +35,10 @@ type c04Req struct {
 	AtMS  int      `json:"at_ms"`
 	Op    *opSpec  `json:"op,omitempty"`
 	Batch []opSpec `json:"batch,omitempty"`
+	// GiveUpMS > 0: an impatient bystander - its context is cancelled that many virtual ms after it
+	// was issued (typically before its multi-request is flushed); it travels with the other
+	// requests and its own outcome does not matter
+	GiveUpMS int `json:"give_up_ms,omitempty"`
 }
 
 type c04Case struct {
@@ -242,6 +246,15 @@ func c04RunInBubble(c c04Case, concurrentInjector bool) (out Outcome) {
 				time.Sleep(d)
 			}
 			ctx := context.Background()
+			if rq.GiveUpMS > 0 && rq.Op != nil {
+				cctx, cancel := context.WithTimeout(ctx, time.Duration(rq.GiveUpMS)*time.Millisecond)
+				defer cancel()
+				_, cerr := doOp(client, cctx, c.Layout.Table, *rq.Op)
+				if cerr != nil {
+					fail("foreign-response", "impatient call %s: %v", rq.Op.Marker, cerr)
+				}
+				return
+			}
 			if rq.Op != nil {
 				err, cerr := doOp(client, ctx, c.Layout.Table, *rq.Op)
 				check(*rq.Op, err, cerr)
@@ -336,6 +349,9 @@ func c04RunInBubble(c c04Case, concurrentInjector bool) (out Outcome) {
 		if rq.Op != nil {
 			ops = []opSpec{*rq.Op}
 		}
+		if rq.GiveUpMS > 0 {
+			continue // a bystander: it may have given up before anything was sent
+		}
 		for _, op := range ops {
 			all++
 			if class, fatal := c.Fatal[op.Marker]; fatal {
@@ -414,7 +430,9 @@ func c04Gen(t *rapid.T) c04Case {
 		} else {
 			op := genOp(t, c.Layout, kinds, &n)
 			rq.Op = &op
-			if rapid.IntRange(0, 9).Draw(t, "fatal") == 0 {
+			if rapid.IntRange(0, 5).Draw(t, "impatient") == 0 {
+				rq.GiveUpMS = rapid.SampledFrom([]int{1, 1, 3, 25}).Draw(t, "giveup")
+			} else if rapid.IntRange(0, 9).Draw(t, "fatal") == 0 {
 				c.Fatal[op.Marker] = rapid.SampledFrom([]string{appExc, sim.DoNotRetry, "java.lang.IllegalArgumentException"}).Draw(t, "fclass")
 			}
 		}
@@ -431,7 +449,8 @@ func TestC04_FaultSurvival(t *testing.T) {
 			"IOException-log-closed / CallQueueTooBig / RegionOpening / Throttling / RetryImmediately / TooBusy / "+
 			"PleaseHold answers, server abort and stop with reassignment and a down period, connection reset, dial "+
 			"refused for a while, hbase:meta relocated), interleaved with 1..20 single or batched requests issued "+
-			"before, during and after the events; some requests are answered with an application / DoNotRetry exception. "+
+			"before, during and after the events; some requests are answered with an application / DoNotRetry exception, some are "+
+			"impatient bystanders whose own context ends 1..25 virtual ms after they were issued (they share multi-requests with the others). "+
 			"Oracle: every other request succeeds with its own key-derived response within 10 virtual minutes after "+
 			"the last event and was executed by the server hosting its region (the servers reject and record misrouted "+
 			"requests); application exceptions come back unchanged and are not retried. Non-trivial = >= 1 request met a "+
